@@ -45,6 +45,8 @@ type Job struct {
 
 	DenyCall        func(name string) bool
 	GoInline        func(label string) bool
+	Threads         bool // tier 3: goroutines are symbolic threads with symbolic schedules
+	Preempt         int  // bound on preemptions per path (0: switch only when blocked)
 	GoInlineCalls   []string // goroutines whose body calls one of these functions run to completion when spawned
 	OnAlloc         func(it *Interp, ev AllocEvent)
 	OnBlockedSend   func(it *Interp, ch *ChanObj, v Value) bool
@@ -262,6 +264,10 @@ func runPath(prog *ssa.Program, j *Job, ctx *Ctx, sol *Solver, cache *SatCache, 
 				}
 			}
 		}()
+		if j.Threads {
+			it.initThreads()
+			defer it.killThreads()
+		}
 		if j.Setup != nil {
 			j.Setup(it)
 		}
@@ -302,6 +308,9 @@ func runPath(prog *ssa.Program, j *Job, ctx *Ctx, sol *Solver, cache *SatCache, 
 	}
 	for i := range it.violations {
 		it.violations[i].Extra = map[string]string{"inputs": it.inputsJSON(it.violations[i].Model)}
+		if len(it.tags) > 0 {
+			it.violations[i].Msg += " [" + strings.Join(it.tags, " ") + "]"
+		}
 	}
 	if os.Getenv("SYMGO_DEBUG") != "" {
 		fmt.Fprintf(os.Stderr, "path %v -> %s %s (steps %d, queries %d, pc %d)\n", it.taken, outcome, detail, it.steps, it.nQueries, len(it.pc))
